@@ -142,6 +142,12 @@ func (n *LocalNode) RequestToJoin(joiner chord.VNode) (chord.VNode, []chord.VNod
 
 	prevPredecessor = n.predecessor
 
+	// predecessor is unknown after checkPredecessor dropped a failed node.
+	// refuse and let the joiner retry until stabilization discovers the new one
+	if prevPredecessor == nil {
+		return nil, nil, chord.ErrJoinInvalidState
+	}
+
 	// see issue https://github.com/zllovesuki/specter/issues/23
 	if !chord.Between(prevPredecessor.ID(), joiner.ID(), n.ID(), false) {
 		return nil, nil, chord.ErrJoinInvalidSuccessor
